@@ -99,6 +99,7 @@ const (
 type Op struct {
 	Kind    string `json:"kind"`
 	Barrier bool   `json:"barrier,omitempty"` // start only when all earlier ops are done
+	Quiesce bool   `json:"quiesce,omitempty"` // start only when no task at all is alive (background goroutines included)
 	// req
 	Addr   string      `json:"addr,omitempty"`
 	Method string      `json:"method,omitempty"`
